@@ -716,4 +716,62 @@ theorem lookup_overrideHeaders (client handed : List (Bytes × Bytes)) (k : Byte
             exact ih hh ha
     exact lookup_filter_ne k (fun n => !handed.any fun e => e.1 = n) client (by simp [hany])
 
+/-! ## Host, hostname and port of the view -/
+
+theorem cutLast_append (sep : Char) (a b : Bytes) (h : sep ∉ b) : cutLast sep (a ++ sep :: b) = some (a, b) := by
+  unfold cutLast
+  have hr : (a ++ sep :: b).reverse = b.reverse ++ sep :: a.reverse := by simp
+  have hb : sep ∉ b.reverse := by simpa using h
+  rw [hr, cut_append sep b.reverse a.reverse hb]
+  simp
+
+theorem cutLast_not_mem (sep : Char) (a : Bytes) (h : sep ∉ a) : cutLast sep a = none := by
+  unfold cutLast
+  have hb : sep ∉ a.reverse := by simpa using h
+  rw [cut_not_mem sep a.reverse hb]
+  simp
+
+theorem not_colon_of_digits {p : Bytes} (h : p.all isDigitA = true) : ':' ∉ p := by
+  intro hm
+  have hd := List.all_eq_true.mp h _ hm
+  exact absurd hd (by decide)
+
+/-- `name:port` with a port of digits only — any digits, any number of them, none at all — is split at that colon,
+    whatever `name` is (it may contain colons itself: an IPv6 literal) -/
+theorem splitHostPort_port (name port : Bytes) (hd : port.all isDigitA = true) :
+    splitHostPort (name ++ ':' :: port) = (stripBrackets name, port) := by
+  unfold splitHostPort
+  rw [cutLast_append ':' name port (not_colon_of_digits hd)]
+  simp [hd]
+
+/-- a host without a colon has no port -/
+theorem splitHostPort_no_colon (h : Bytes) (hc : ':' ∉ h) : splitHostPort h = (stripBrackets h, []) := by
+  unfold splitHostPort
+  rw [cutLast_not_mem ':' h hc]
+
+/-- the slash handling of a rule leaves method, scheme, host and query of the view alone -/
+theorem prelude_host (esh : SlashHandling) (o : ReqObj) :
+    (prelude esh o).1.url.host = o.url.host ∧ (prelude esh o).1.url.scheme = o.url.scheme ∧
+    (prelude esh o).1.method = o.method := by
+  cases esh <;> simp only [prelude] <;> simp <;> split <;> simp
+
+/-- the view the mechanisms of the reference run are shown carries the host and the scheme of the logical request -/
+theorem serve_view_host (cfg : Cfg) (lr : LReq) (o : ReqObj) (h : (Spec.serve cfg lr).view = some o) :
+    o.url.host = lr.host ∧ o.url.scheme = lr.scheme := by
+  unfold Spec.serve Spec.serveOn at h
+  split at h
+  · simp at h
+  · dsimp only at h
+    split at h
+    · simp at h
+    · have ho := runPipe_view _ _ _ _ _ h
+      rw [← ho]
+      exact ⟨(prelude_host _ _).1, (prelude_host _ _).2.1⟩
+  · dsimp only at h
+    split at h
+    · simp at h
+    · have ho := runPipe_view _ _ _ _ _ h
+      rw [← ho]
+      exact ⟨(prelude_host _ _).1, (prelude_host _ _).2.1⟩
+
 end Heimdall.EntryView
